@@ -10,6 +10,7 @@ REALS = ("ValueType is modelled by exact reals (type R): every 'equals its defin
          "the size and growth of IEEE rounding error is NOT decided by this check")
 
 UNITS = {
+    "converters": dict(tpl="converters.rs.tpl", doc="methods::{CollapseTimeframe<Candle>, Renko, RenkoOutput}"),
     "ind_rsi": dict(tpl="ind_rsi.rs.tpl", doc="indicators::RelativeStrengthIndex (generic in the moving-average constructor)"),
     "ind_channels": dict(tpl="ind_channels.rs.tpl", doc="indicators::{DonchianChannel, PriceChannelStrategy, BollingerBands}"),
     "ind_macd": dict(tpl="ind_macd.rs.tpl", doc="indicators::MACD (generic in the moving-average constructor)"),
@@ -33,6 +34,15 @@ UNITS = {
 }
 
 KANI_GROUPS = {
+    "renko": dict(
+        src="kani/renko.rs", append_to="src/methods/renko.rs", module="methods::renko::verif_renko",
+        harnesses=[dict(name="vk_renko_boundary_concrete", kind="bounded(one concrete boundary price)", timeout=300, tier="quick"),
+                   dict(name="vk_renko_up_symbolic", kind="complete", timeout=3000, tier="thorough"),
+                   dict(name="vk_renko_down_symbolic", kind="complete", timeout=3000, tier="thorough")]),
+    "text": dict(
+        src="kani/text.rs", append_to="src/core/candles.rs", module="core::candles::verif_text",
+        harnesses=[dict(name="vk_source_text_roundtrip", kind="complete", timeout=900, tier="thorough"),
+                   dict(name="vk_source_parse_total_len3", kind="bounded(len <= 3 bytes)", timeout=900, tier="thorough")]),
     "ohlcv": dict(
         src="kani/ohlcv.rs", append_to="src/core/ohlcv.rs", module="core::ohlcv::verif_ohlcv",
         harnesses=[dict(name=n, kind="complete", timeout=600, tier="quick") for n in
@@ -43,7 +53,7 @@ KANI_GROUPS = {
         harnesses=[
             dict(name="vk_highest_l3", kind="bounded(L=3, 5 steps)", timeout=600, props=["C04"], witness_units=["highest_lowest"]),
             dict(name="vk_lowest_l3", kind="bounded(L=3, 5 steps)", timeout=600, props=["C04"], witness_units=["highest_lowest"]),
-            dict(name="vk_highest_lowest_delta_l3", kind="bounded(L=3, 5 steps over a 5-letter alphabet incl. both zeros)", timeout=900, tier="thorough", props=["C04"], witness_units=["highest_lowest"]),
+            dict(name="vk_highest_lowest_delta_l3", kind="bounded(L=3, 5 steps over a 5-letter alphabet incl. both zeros)", timeout=300, props=["C04"], witness_units=["highest_lowest"]),
             dict(name="vk_highest_index_l3", kind="bounded(L=3, 5 steps)", timeout=600, props=["C04"], witness_units=["highest_lowest_index"]),
             dict(name="vk_lowest_index_l3", kind="bounded(L=3, 5 steps)", timeout=600, props=["C04"], witness_units=["highest_lowest_index"]),
             dict(name="vk_smm_l3", kind="bounded(L=3, 5 steps over a 5-letter alphabet incl. both zeros)", timeout=1800, tier="thorough", props=["C04"]),
@@ -233,6 +243,27 @@ PROPS["C12"] = dict(
            "Donchian and PriceChannel contain the highs/lows they are built from."),
     assumptions=[REALS + ": residue after a flat stretch and non-finite outputs are float behaviour and are NOT decided",
                  "Aroon, MFI, Stochastic, CMO, CMF, SMI, Keltner, Envelopes, ParabolicSAR, MeanAbsDev are not covered by this check yet"],
+)
+
+PROPS["C17"] = dict(
+    verus=["converters", "candle_methods", "ohlcv"], kani=["renko"],
+    claim=("CollapseTimeframe (instantiated at Candle) is verified to emit exactly one candle on every period-th input and to aggregate with `+`, whose "
+           "contract is first open / highest high / lowest low / last close / summed volume; HeikinAshi follows its open/close recursion and keeps an ordered, "
+           "positive candle ordered and positive; RenkoOutput's iterator yields contiguous, equally sized, one-directional bricks; Renko::next (over reals) "
+           "emits at least one brick exactly when the price has reached the next boundary, the count being the number of whole bricks, the new bounds the last "
+           "brick, the bricks carrying the volume consumed since the previous emission. The float-level boundary case (quotient truncating to 0) is decided "
+           "bit-precisely by Kani: one concrete boundary price in the quick tier, symbolic state and price (loop-free, complete) in the thorough tier."),
+    assumptions=[REALS + " for the Verus part", "Sequence::collapse_timeframe (windows/step_by/reduce) and RenkoOutput::{nth,last} (`mut self`) are not under contract",
+                 "prices are positive (input_ok), as in the property's valid-candle streams"],
+)
+PROPS["C18"] = dict(
+    verus=["ohlcv"], kani=["ohlcv", "text"],
+    claim=("tp, hl2, ohlc4, volumed_price, source(kind), clv (incl. the zero-range branch and |clv| <= 1 for an ordered candle), tr_close == max(h-l, |h-pc|, |l-pc|) "
+           "for h >= l, tr, and Candle + Candle (with associativity as a lemma) are verified over exact reals against their formulas for an arbitrary "
+           "OHLCV implementation; validate, the source dispatch and the clv zero-range branch are additionally proved bit-precisely for every f64 candle "
+           "(NaN/inf included) by loop-free Kani harnesses. The bit-precise tr_close identity and the text round trip of Source run in the thorough tier."),
+    assumptions=[REALS + " for the arithmetic identities (float + on volumes is not associative; the lemma is the ideal-arithmetic reading)",
+                 "MA text forms (MA::from_str) are not covered"],
 )
 
 NOT_BUILT = {}
